@@ -20,7 +20,7 @@ from . import common, stages
 
 ID = 'C14'
 LEVEL = 'fault_enumeration'
-QUOTA = {'quick': 32, 'thorough': 256}
+QUOTA = {'quick': 36, 'thorough': 256}
 BUDGET = {'quick': 150, 'thorough': 1500}
 RULE = ('scenario = (generated world, pooled stage); inside it the complete grid worker x {kill, exit, raise} x '
         '{before, mid(k), after} is enumerated, each cell executed under its own seeded random schedule; an '
@@ -34,7 +34,7 @@ ASSUMPTIONS = [
     '"a later stage would accept as complete" is decided by running the real consuming stage on whatever is left',
 ]
 STAGE_CYCLE = ['mapping', 'stats', 'refmarkers', 'pmask', 'pmask_markers', 'qmarkers', 'transpose',
-               'mapping_mgr']
+               'mapping_mgr', 'otf']
 MODES = ['kill', 'exit', 'raise']
 POINTS = ['before', 'mid', 'after']
 SUCCESS_MSG = 'RAN SUCCESSFULLY'
@@ -50,6 +50,12 @@ def gen(rng, tier, idx):
         scn['cfg']['chunk_size'] = rng.choice([2, 3])
         scn['cfg']['bootstrap_iteration'] = rng.choice([1, 3])
         scn['wp']['single_top'] = False
+    if stage == 'otf':
+        scn['wp']['n_query'] = rng.choice([4, 6])
+        scn['wp']['n_leaves'] = rng.choice([3, 4, 5])
+        scn['cfg']['chunk_size'] = rng.choice([2, 3])
+        scn['cfg']['n_processors'] = rng.randint(2, 3)
+        scn['cfg']['bootstrap_iteration'] = rng.choice([1, 3])
     if stage == 'qmarkers':
         scn['cfg']['behemoth_cutoff'] = 5000000      # CLI body, writes a file
     scn['kcfg'] = common.draw_kernel_cfg(rng)
@@ -127,6 +133,26 @@ def judge(scn, sb, ctx, out, cell):
                 bad.append(('log-missing', 'log file does not record the error'))
         else:
             bad.append(('log-missing', 'no log file was written'))
+        return bad
+    if stage == 'otf':
+        # a mapping run made of three pools (reference markers, query markers, mapping).  The JSON output with its
+        # log is written by the mapping part only; when the failing worker belongs to an earlier pool the run never
+        # gets there, so the log clause is judged only if a JSON output exists.
+        if os.path.exists(o['json']):
+            try:
+                blob = common.load_json(o['json'])
+            except Exception as e:
+                blob = None
+                bad.append(('json-unreadable', repr(e)[:200]))
+            if blob is not None:
+                if 'results' in blob:
+                    bad.append(('results-written', 'JSON output has %d result records' % len(blob['results'])))
+                if any(SUCCESS_MSG in str(l) for l in blob.get('log', [])):
+                    bad.append(('success-logged', 'JSON log contains the success message'))
+                if 'log' not in blob:
+                    bad.append(('log-missing', 'JSON output has no log'))
+        if os.path.exists(o['csv']):
+            bad.append(('csv-written', 'a CSV file exists at the requested path'))
         return bad
     # ---- other stages: nothing acceptable may be left at the output location
     for kind, path in o.items():
